@@ -123,6 +123,16 @@ def classify_exception(e):
       l = f.tb_frame.f_locals
       loc = {'index': l.get('index'), 'count': l.get('count'), 'begin': l.get('begin'), 'end': l.get('end'),
              'norig': len(l['self']._orig_list) if 'self' in l else None}
+      if code == 2 and 'self' in l:
+        # is the final assert only comparing with the neighbours' keys from before the adjustment?
+        try:
+          import relabeling
+          w, idx = l['self'], l['index']
+          nb = w._adj_get_key(idx - 1) if idx > 0 else 0.0
+          ne = w._adj_get_key(idx) if idx < len(w._orig_list) else l['end']
+          loc['fresh_valid'] = bool(relabeling.is_valid_range(nb, w._insertions.irange(nb, ne), ne))
+        except Exception:      # pylint: disable=broad-except
+          loc['fresh_valid'] = None
   return code, loc
 
 
@@ -192,8 +202,10 @@ def failure_kind(orig, keys, r):
       return 'exception:append-beyond-2^53'
     if code in (1, 2) and orig and orig[0] == -INF and -INF in keys:
       return 'existing-neginf'
-    if code == 5 and b is not None and b >= 2.0 ** 1023:
+    if code == 5 and b is not None and b >= 2.0 ** 1022:      # the doubled range would have to reach 2^1024
       return 'exception:ldexp-overflow'
+    if code == 2 and loc.get('fresh_valid') is True:
+      return 'exception:final-assert-stale-endpoints'
     return 'exception:code%d' % code
   kind, _ = oracle(orig, keys, r[1], r[2])
   if kind == 'placement' and orig and orig[0] == -INF and -INF in keys:
@@ -228,7 +240,8 @@ def gen_orig(rng):
   elif mode in ('dense', 'dense2'):
     x = rng.choice(ANCHORS)
     x = pf(x) if (x > 0 and rng.random() < 0.2) else x
-    x = skip(x, rng.choice([0, 0, 1, 3])) if x == x else 1.0
+    # anywhere inside the aligned blocks that range_around_float uses (the middle of a block matters)
+    x = skip(x, rng.choice([0, 0, 1, 3, 64, 128, 256, 255, 384, 512, rng.randint(0, 1024)])) if x == x else 1.0
     xs = []
     for _ in range(n):
       if not math.isfinite(x):
@@ -312,9 +325,12 @@ def fixed_cases():
     ([1e307], [INF]), ([2.0 ** 53], [INF]), ([2.0 ** 53 - 2], [INF]), ([2.0 ** 53 - 2], [INF] * 3), ([2.0 ** 54], [INF]),
     ([2.0 ** 53], [INF, INF]), ([1.7976931348623157e308], [INF]), ([pf(1.7976931348623157e308), 1.7976931348623157e308],
                                                                    [1.7976931348623157e308]),
+    ([pf(2.0 ** 1023), 2.0 ** 1023, nf(2.0 ** 1023)], [2.0 ** 1023] * 3),
     ([-INF], [-INF]), ([-INF], [-INF, INF]), ([-INF, 1.0], [-INF]), ([1.0, INF], [0.5]), ([1.0, INF], [INF]),
     ([-0.0, 1.0], [0.0]), ([-0.0], [-0.0]), ([1.0, 2.0], [-0.0, 0.0]),
     ([float(i + 1) for i in range(30)], [INF] * 20), ([float(i + 1) for i in range(10)], [5.0] * 30),
+    ([skip(1.0, 256), skip(1.0, 257)], [skip(1.0, 257)]), ([skip(3.0, 256), skip(3.0, 257)], [skip(3.0, 257)]),
+    ([skip(1.0, 128), skip(1.0, 129)], [skip(1.0, 129)]), ([skip(1.0, 256), skip(1.0, 257), skip(1.0, 300)], [skip(1.0, 257)] * 2),
   ]
 
 
@@ -353,8 +369,8 @@ def evolved_cases(rng, nhist, steps, maxlen):
         keys = [-INF, INF]
       else:
         keys = [rng.choice(orig + [0.0, INF]) if orig else 1.0 for _ in range(rng.randint(1, 5))]
-      out.append((list(orig), keys, 'evolved-' + style))
       r = run_impl(orig, keys)
+      out.append((list(orig), keys, 'evolved-' + style if r[0] == 'ok' else 'evolved-failing'))
       if r[0] != 'ok':
         break
       new = list(orig)
@@ -366,12 +382,13 @@ def evolved_cases(rng, nhist, steps, maxlen):
 
 def gen_cases(ctx):
   out = [(o, k, 'fixed') for (o, k) in fixed_cases()]
-  for _ in range(ctx.n(230, 8000)):
+  for _ in range(ctx.n(150, 8000)):
     o, mode = gen_orig(ctx.rng)
     out.append((o, gen_keys(ctx.rng, o), mode))
   ev = evolved_cases(ctx.rng, ctx.n(8, 150), ctx.n(40, 120), ctx.n(60, 250))
-  step = max(1, len(ev) // ctx.n(90, 3000))
-  out.extend(ev[::step])          # a sample of the steps (all of them were run through the implementation)
+  step = max(1, len(ev) // ctx.n(60, 3000))
+  # a sample of the steps (all of them were run through the implementation), and every step that failed
+  out.extend(c for i, c in enumerate(ev) if i % step == 0 or c[2] == 'evolved-failing')
   if ctx.tier == 'thorough':
     # exhaustive small scope: every strictly increasing list of <= 3 positions out of 7 consecutive doubles around each
     # anchor, with every batch of <= 2 requests from the same doubles and +-inf
@@ -453,7 +470,7 @@ def op_cases(ctx):
   def emit(op, x, y, n, res):
     out.append('(%d%%Z, %s, %s, %s, %s)' % (op, hz(bits(x)), hz(bits(y)), hz(n),
                                              hzlist([b(v) if isinstance(v, float) else v for v in res])))
-  for _ in range(ctx.n(400, 20000)):
+  for _ in range(ctx.n(300, 20000)):
     x, y = rnd_float(), rnd_float()
     if x != x or y != y:
       continue                    # NaN operands are outside the model (it keeps a single NaN)
@@ -560,7 +577,7 @@ def search(ctx):
   if not hasattr(ctx, '_c20'):
     ctx._c20 = [(o, k, m, run_impl(o, k)) for (o, k, m) in gen_cases(ctx)]
     ctx._c20_rejected = None
-  nviol = 0
+  perkind = {}
   for i, (orig, keys, mode, r) in enumerate(ctx._c20):
     j = judge(orig, keys, r)
     rejected = ctx._c20_rejected is not None and i in ctx._c20_rejected
@@ -568,9 +585,9 @@ def search(ctx):
       ctx.broken('certified checker and Python oracle disagree',
                  'orig=%r keys=%r result=%r oracle=%r check=%r' % (orig, keys, r, j, not rejected))
     if j is not None:
-      nviol += 1
+      perkind[j[0]] = perkind.get(j[0], 0) + 1
       ctx.bump('failing:' + j[0])
-      if nviol <= 60:
+      if perkind[j[0]] <= 8:         # a few witnesses of EVERY failure kind (known kinds must not crowd out new ones)
         ctx.violation(j[0], j[1], {'orig': [bits(x) for x in orig], 'keys': [bits(x) for x in keys],
                                    'orig_f': [repr(x) for x in orig], 'keys_f': [repr(x) for x in keys]})
   ctx.log('oracle applied to all results')
